@@ -36,6 +36,7 @@ class Rig:
         self.transport = simbus.connect_frame_level(
             self.ec, loop, _HookBus(self), latency=latency, fault=fault)
         self.frames = []      # (sent bytes, returned bytes)
+        self.applied = {}     # frame number -> {datagram: counter change}
         ec, terms, devs, sg = groups.build_group(case, kind, ec=self.ec)
         self.terms, self.devs, self.sg = terms, devs, sg
         for t in terms:
@@ -98,11 +99,16 @@ class _HookBus:
             back = bytearray(back)
             from . import frames as fr
             length, ftype, dgs, end = fr.parse(bytes(back))
+            applied = {}
             for i, d in enumerate(dgs):
                 delta = faults["wkc"].get(i)
                 if delta:
-                    struct.pack_into("<H", back, d.wkc_pos,
-                                     (d.wkc + delta) & 0xffff)
+                    # a counter cannot fall below zero
+                    new = max(0, d.wkc + delta) & 0xffff
+                    struct.pack_into("<H", back, d.wkc_pos, new)
+                    if new != d.wkc:
+                        applied[i] = new - d.wkc
+            rig.applied[no] = applied
             back = bytes(back)
         if rig.on_response is not None:
             back = rig.on_response(no, bytes(frame), bytes(back))
